@@ -76,11 +76,9 @@ CrashSnapRenamed ==
   /\ snap' = <<mem>>
   /\ mem' = Recover(snap', file)
   /\ ops' = Append(ops, [op |-> "Crash", point |-> "snap.renamed", res |-> "ok"])
-  \* named deviation (known_findings.json KF-C02-1): replaying the old log over the newer image is not
-  \* idempotent for edges whose weight/properties changed or that were re-linked (GLINK/GUNLINK are
-  \* applied again to versions the image already holds)
-  /\ dev' = IF mem.out # {} THEN dev \cup {"replay_over_newer_snapshot"} ELSE dev
-  /\ UNCHANGED <<file, clock, delat, dirty, dur, past>>
+  \* (the replay over the newer image is idempotent since 'fix: replay skips graph records the loaded image already
+  \*  reflects'; this crash point carried the named deviation KF-C02-1 before)
+  /\ UNCHANGED <<file, clock, dev, delat, dirty, dur, past>>
 
 \* crash inside RewriteAOF after the compacted log replaced the old one (snapshot untouched)
 CrashRwReplaced ==
